@@ -125,6 +125,10 @@ pub fn convert(run: &RunDesc, op: &Op) -> Outcome {
 fn convert_once(run: &RunDesc, op: &Op) -> Outcome {
     let text: &str = &run.texts[op.text];
     let settings = to_settings(&op.settings);
+    let tf = thread_faults();
+    if let Some(t) = tf {
+        t.on();
+    }
     QUIET.with(|q| q.set(true));
     let r = std::panic::catch_unwind(std::panic::AssertUnwindSafe(|| match op.entry {
         0 => svgbob::to_svg(text),
@@ -134,6 +138,9 @@ fn convert_once(run: &RunDesc, op: &Op) -> Outcome {
         _ => svgbob::to_svg_with_override_size(text, &settings, op.w, op.h),
     }));
     QUIET.with(|q| q.set(false));
+    if let Some(t) = tf {
+        t.off();
+    }
     match r {
         Ok(s) => Outcome::Ok(s),
         Err(e) => {
@@ -682,4 +689,44 @@ pub fn install_host_logger(variant: u64) -> &'static str {
     }
     log::set_max_level(level);
     name
+}
+
+// ------------------------------------------------------------ thread-creation faults
+
+extern "C" {
+    fn dlsym(handle: *mut std::ffi::c_void, symbol: *const std::os::raw::c_char) -> *mut std::ffi::c_void;
+}
+
+/// Control functions of libverif_thr.so when it is preloaded (some native episodes).
+#[allow(dead_code)]
+pub struct ThreadFaults {
+    set: extern "C" fn(i32),
+    failed: extern "C" fn() -> std::os::raw::c_long,
+}
+
+pub fn thread_faults() -> Option<&'static ThreadFaults> {
+    static CELL: std::sync::OnceLock<Option<ThreadFaults>> = std::sync::OnceLock::new();
+    CELL.get_or_init(|| unsafe {
+        let a = dlsym(std::ptr::null_mut(), b"verif_thr_set\0".as_ptr() as *const _);
+        let b = dlsym(std::ptr::null_mut(), b"verif_thr_failed\0".as_ptr() as *const _);
+        if a.is_null() || b.is_null() {
+            None
+        } else {
+            Some(ThreadFaults { set: std::mem::transmute::<*mut std::ffi::c_void, extern "C" fn(i32)>(a), failed: std::mem::transmute::<*mut std::ffi::c_void, extern "C" fn() -> std::os::raw::c_long>(b) })
+        }
+    })
+    .as_ref()
+}
+
+impl ThreadFaults {
+    pub fn on(&self) {
+        (self.set)(1)
+    }
+    pub fn off(&self) {
+        (self.set)(0)
+    }
+    #[allow(dead_code)]
+    pub fn fired(&self) -> u64 {
+        (self.failed)() as u64
+    }
 }
